@@ -657,7 +657,33 @@ def feed(F, R):
         sets = [(x, t) for x, t in b.calls() if x in arm and re.search(r'Cell::<T>::set$', callee_name(t) or '') and (call_recv_path(b, t, 0) or ('',))[-1] == 'payload']
         inst = [x for x, t in sets if edge_dominates(b, bi, ne_edge, x) and fs[0][0] in b.dom.get(x, ())]
         ys = [y for y in b.yields() if y in b.reachable(fs[0][0], avoid=[x for x in inst])]
-        R.ob('C10.feed', '%s|Publish|sender-installed-before-first-await' % key, bool(inst) and not [y for y in ys if y in b.reachable(fs[0][0], avoid=inst)],
+        ok_inst = bool(inst) and not [y for y in ys if y in b.reachable(fs[0][0], avoid=inst)]
+        if not ok_inst and sets:
+            # path-sensitive second opinion (the sender may travel through a tuple / Option before it is stored): on every
+            # path of the arm that runs from_stream, `payload.set(..)` is called before the first suspension point
+            entry = min(x for x in arm if any(p_ not in arm for p_ in b.pred[x])) if [x for x in arm if any(p_ not in arm for p_ in b.pred[x])] else min(arm)
+            se = SymEx(b, F, loop_visits=0, max_paths=3000, stop_at=lambda x: x not in arm and x != entry)
+            set_blocks = {x for x, t in sets}
+            bad_paths = 0
+            seen_stream = 0
+            for p_ in se.run(start_block=entry):
+                order = [c_[2] if not isinstance(c_[2], tuple) else c_[2][0] for c_ in p_.calls]
+                names = [c_[0] for c_ in p_.calls]
+                if fs[0][0] not in order:
+                    continue
+                seen_stream += 1
+                i_fs = order.index(fs[0][0])
+                installed = False
+                for k_ in range(i_fs + 1, len(order)):
+                    if order[k_] in set_blocks:
+                        installed = True
+                        break
+                    if names[k_] == '<yield>':
+                        break
+                if not installed:
+                    bad_paths += 1
+            ok_inst = seen_stream > 0 and bad_paths == 0 and not se.truncated
+        R.ob('C10.feed', '%s|Publish|sender-installed-before-first-await' % key, ok_inst,
              'the stream sender is not stored in sink.payload before the handler can be suspended: following chunks would be refused', b.loc(fs[0][0]))
     R.floor('C10.feed', 'Publish arms with payload streaming', m, 4)
 
